@@ -335,6 +335,12 @@ def run(chk):
                     mon.append((sc, 0, f"update with regime {regime}, phase/fabric {pair} did not raise"))
                 if before != after or len(m.fractions) != before[0]:
                     mon.append((sc, 0, "a failed update altered the stored history"))
+            # ... also when it is the integrator that fails, at its first or at a later step (MT.failing_solver_probe)
+            for fail_step, regime in ((1, 4), (2, 6), (3, 4), (2, 0)):
+                scf = MT.scenario(np.random.default_rng([chk.seed, 0xFA11, fail_step]), regime=regime, n=5, nupd=1, lkind="general")
+                scf["fail_step"] = fail_step
+                chk.note_case(("failing-solver", fail_step, regime), nontrivial=True)
+                mon += [(scf, 0, msg) for msg in MT.failing_solver_probe(scf, fail_step)]
         chk.cov["traces_validated_against_impl"] = chk.cov["evaluations"]
     chk.cov["disagreements"] = len(bad)
     chk.cov["monitor_failures"] = len(mon)
@@ -362,6 +368,12 @@ def replay(d):
         print("replay file names a broken obligation; re-run the check itself")
         return 1
     sc = d.get("scenario", {})
+    if "pair" in sc and sc.get("fail_step"):
+        sc["pair"] = tuple(sc["pair"])
+        fails = MT.failing_solver_probe(sc, int(sc["fail_step"]))
+        for m in fails:
+            print("still fails:", m)
+        return 1 if fails else 0
     if "pair" in sc and sc.get("c07_probe"):
         sc["pair"] = tuple(sc["pair"])
         with MT.Recorder() as rec:
